@@ -140,7 +140,10 @@ def basis_spline(  # pylint: disable=dangerous-default-value  # always replaced 
         else:
             knots_x = x
     else:
-        knots_x = x
+        # Knots are always selected from the data within the bounds (as in R),
+        # otherwise explicit bounds narrower than the data could produce inner
+        # knots outside of them (and hence an unordered knot vector).
+        knots_x = x[(x >= lower_bound) & (x <= upper_bound)]
 
     # Prepare knots
     if "knots" not in _state:
